@@ -722,9 +722,41 @@ class _LoopCtl(Exception):
         self.kind = kind
 
 
+class ClassTok:
+    """Stands for a class of the analysed program where the interpreted code handles classes as values."""
+
+    def __init__(self, name):
+        self.name = name
+
+
+class _Raised(Exception):
+    """The interpreted function raised."""
+
+
+# methods of plain sample values (lists, dicts, strings of the analyser's own making) the interpreter may call
+_VALUE_METHODS = {
+    list: {"append", "insert", "extend", "index", "copy", "count", "pop", "reverse", "sort", "remove", "clear"},
+    dict: {"get", "setdefault", "values", "keys", "items", "pop", "update", "copy"},
+    str: {"split", "rsplit", "join", "startswith", "endswith", "replace", "upper", "lower", "strip", "lstrip", "rstrip", "format", "capitalize", "find",
+          "rfind", "isidentifier", "isdigit", "title", "partition", "rpartition", "count", "index"},
+    tuple: {"index", "count"},
+    set: {"add", "discard", "union", "intersection", "difference", "copy", "update"},
+}
+_VALUE_METHODS = dict(_VALUE_METHODS, **{"__all__": set().union(*_VALUE_METHODS.values())})
+
+
 class SampleObj(dict):
-    """A sample object for mini_exec: attributes are the dict's entries."""
+    """A sample object for mini_exec: attributes are the dict's entries (`__kind__` names its class for isinstance)."""
     __hash__ = object.__hash__
+
+    def __bool__(self):
+        return True
+
+    def __eq__(self, other):
+        return self is other
+
+    def __ne__(self, other):
+        return self is not other
 
 
 def mini_exec(fn: ast.FunctionDef, args: Dict[str, object], budget: int = 2000, methods: Optional[Dict[str, ast.FunctionDef]] = None, _depth: int = 0):
@@ -760,17 +792,83 @@ def mini_exec(fn: ast.FunctionDef, args: Dict[str, object], budget: int = 2000, 
                     if k.arg:
                         call_args[k.arg] = ev(k.value)
                 return mini_exec(m, call_args, budget, methods, _depth + 1)
+        if isinstance(e, ast.Call) and isinstance(e.func, ast.Name) and e.func.id == "isinstance" and len(e.args) == 2:
+            obj = ev(e.args[0])
+            ks = e.args[1].elts if isinstance(e.args[1], ast.Tuple) else [e.args[1]]
+            names = set()
+            for k in ks:
+                if isinstance(k, ast.Name) and k.id in env:
+                    v_ = env[k.id]                      # a class held in a variable (`for t, dest in table: isinstance(m, t)`)
+                    for c_ in (v_ if isinstance(v_, (list, tuple)) else [v_]):
+                        names.add(c_.name if isinstance(c_, ClassTok) else None)
+                else:
+                    names.add(k.attr if isinstance(k, ast.Attribute) else (k.id if isinstance(k, ast.Name) else None))
+            if None in names:
+                raise _PathEval.Unknown("isinstance against a computed class")
+            if isinstance(obj, SampleObj):
+                return bool(({obj.get("__kind__")} | set(obj.get("__bases__", ()))) & names)
+            py = {"str": str, "list": list, "tuple": tuple, "dict": dict, "int": int, "bool": bool, "set": set}
+            return any(isinstance(obj, py[n_]) for n_ in names if n_ in py)
+        if isinstance(e, ast.Call) and isinstance(e.func, ast.Attribute) and e.func.attr in _VALUE_METHODS["__all__"] and not (methods and e.func.attr in methods):
+            recv = ev(e.func.value)
+            if type(recv) in (list, dict, str, tuple, set) and e.func.attr in _VALUE_METHODS[type(recv)]:
+                a_ = [ev(x) for x in e.args]
+                kw_ = {k.arg: ev(k.value) for k in e.keywords if k.arg}
+                try:
+                    r_ = getattr(recv, e.func.attr)(*a_, **kw_)
+                except (TypeError, ValueError, IndexError, KeyError) as ex:
+                    raise _PathEval.Unknown(f"{e.func.attr}() on these samples: {ex}")
+                return list(r_) if e.func.attr in ("values", "keys", "items") else r_
+        if isinstance(e, ast.Lambda) and not e.args.kwonlyargs and not e.args.vararg and not e.args.kwarg:
+            ps_ = [a.arg for a in e.args.args]
+
+            def fn_(*vals):
+                if len(vals) != len(ps_):
+                    raise _PathEval.Unknown("lambda called with another number of arguments")
+                saved_ = {k: env[k] for k in ps_ if k in env}
+                env.update(zip(ps_, vals))
+                try:
+                    return ev(e.body)
+                finally:
+                    for k in ps_:
+                        env.pop(k, None)
+                    env.update(saved_)
+            return fn_
+        if isinstance(e, ast.Dict):
+            return {ev(k): ev(v) for k, v in zip(e.keys, e.values)}
+        if isinstance(e, ast.Set):
+            return {ev(x) for x in e.elts}
+        if isinstance(e, (ast.GeneratorExp, ast.ListComp, ast.SetComp, ast.DictComp)) and len(e.generators) > 1 or isinstance(e, (ast.SetComp, ast.DictComp)):
+            out = []
+            saved = dict(env)
+
+            def gen(k):
+                if k == len(e.generators):
+                    out.append((ev(e.key), ev(e.value)) if isinstance(e, ast.DictComp) else ev(e.elt))
+                    return
+                g_ = e.generators[k]
+                for item in ev(g_.iter):
+                    bind(g_.target, item)
+                    if all(ev(c) for c in g_.ifs):
+                        gen(k + 1)
+            gen(0)
+            env.clear()
+            env.update(saved)
+            return dict(out) if isinstance(e, ast.DictComp) else (set(out) if isinstance(e, ast.SetComp) else out)
         if isinstance(e, ast.Call) and isinstance(e.func, ast.Attribute) and e.func.attr == "join" and len(e.args) == 1:
             sep, items = ev(e.func.value), ev(e.args[0])
             if isinstance(sep, str) and isinstance(items, list) and all(isinstance(x, str) for x in items):
                 return sep.join(items)
             raise _PathEval.Unknown("join of non-strings")
-        if isinstance(e, ast.Call) and isinstance(e.func, ast.Name) and e.func.id in ("range", "min", "max", "zip", "enumerate", "all", "any", "len", "list", "tuple", "bool", "sorted", "reversed"):
+        if isinstance(e, ast.Call) and isinstance(e.func, ast.Name) and e.func.id in ("range", "min", "max", "zip", "enumerate", "all", "any", "len", "list", "tuple", "bool", "sorted", "reversed", "dict", "set", "str", "int"):
             vals = [ev(a_) for a_ in e.args]
             f_ = {"range": range, "min": min, "max": max, "zip": zip, "enumerate": enumerate, "all": all, "any": any, "len": len, "list": list,
-                  "tuple": tuple, "bool": bool, "sorted": sorted, "reversed": reversed}[e.func.id]
+                  "tuple": tuple, "bool": bool, "sorted": sorted, "reversed": reversed, "dict": dict, "set": set, "str": str, "int": int}[e.func.id]
+            if e.func.id == "str" and any(isinstance(v_, SampleObj) for v_ in vals):
+                raise _PathEval.Unknown("str() of a sample object")
+            kws_ = {k.arg: ev(k.value) for k in e.keywords if k.arg}
             try:
-                r = f_(*vals)
+                r = f_(*vals, **kws_)
             except TypeError:
                 raise _PathEval.Unknown(f"{e.func.id}() of these samples")
             return list(r) if e.func.id in ("range", "zip", "enumerate", "reversed") else r
@@ -839,6 +937,19 @@ def mini_exec(fn: ast.FunctionDef, args: Dict[str, object], budget: int = 2000, 
         elif isinstance(t, (ast.Tuple, ast.List)) and isinstance(v, (list, tuple)) and len(v) == len(t.elts):
             for x, y in zip(t.elts, v):
                 bind(x, y)
+        elif isinstance(t, ast.Attribute):
+            base = ev(t.value)
+            if not isinstance(base, SampleObj):
+                raise _PathEval.Unknown("attribute store on something that is not a sample object")
+            base[t.attr] = v
+        elif isinstance(t, ast.Subscript) and not isinstance(t.slice, ast.Slice):
+            base = ev(t.value)
+            if type(base) not in (list, dict):
+                raise _PathEval.Unknown("item store")
+            try:
+                base[ev(t.slice)] = v
+            except (IndexError, KeyError, TypeError):
+                raise _PathEval.Unknown("item store out of range on these samples")
         else:
             raise _PathEval.Unknown("assignment target")
 
@@ -853,9 +964,42 @@ def mini_exec(fn: ast.FunctionDef, args: Dict[str, object], budget: int = 2000, 
                 raise _Return(ev(st.value) if st.value is not None else None)
             if isinstance(st, ast.Assign) and len(st.targets) == 1:
                 bind(st.targets[0], ev(st.value))
+            elif isinstance(st, ast.AnnAssign) and st.value is not None:
+                bind(st.target, ev(st.value))
+            elif isinstance(st, ast.AnnAssign):
+                continue
             elif isinstance(st, ast.AugAssign) and isinstance(st.target, ast.Name) and isinstance(st.op, (ast.Add, ast.Sub)):
                 cur = env.get(st.target.id)
-                env[st.target.id] = cur + ev(st.value) if isinstance(st.op, ast.Add) else cur - ev(st.value)
+                if isinstance(cur, list) and isinstance(st.op, ast.Add):
+                    cur.extend(ev(st.value))          # `+=` on a list grows the object every alias sees
+                else:
+                    env[st.target.id] = cur + ev(st.value) if isinstance(st.op, ast.Add) else cur - ev(st.value)
+            elif isinstance(st, ast.AugAssign) and isinstance(st.target, ast.Attribute) and isinstance(st.op, ast.Add):
+                base = ev(st.target.value)
+                if not isinstance(base, SampleObj) or st.target.attr not in base:
+                    raise _PathEval.Unknown("augmented attribute store")
+                cur = base[st.target.attr]
+                if isinstance(cur, list):
+                    cur.extend(ev(st.value))
+                else:
+                    base[st.target.attr] = cur + ev(st.value)
+            elif isinstance(st, ast.Expr) and isinstance(st.value, ast.Call):
+                ev(st.value)
+            elif isinstance(st, ast.While):
+                while ev(st.test):
+                    steps[0] += 1
+                    if steps[0] > budget:
+                        raise _PathEval.Unknown("too many steps")
+                    try:
+                        run(st.body)
+                    except _LoopCtl as c:
+                        if c.kind == "break":
+                            break
+            elif isinstance(st, ast.Raise):
+                raise _Raised(unparse(st.exc)[:60] if st.exc is not None else "")
+            elif isinstance(st, ast.Assert):
+                if not ev(st.test):
+                    raise _Raised("AssertionError")
             elif isinstance(st, ast.If):
                 run(st.body if ev(st.test) else st.orelse)
             elif isinstance(st, ast.For):
